@@ -78,6 +78,8 @@ PROPS.update({
     'C18': bounded('C18', 'arch', 'Architecture builder call sequences vs a shadow shape model, distillation of accepted architectures and of their splits, npz layer-file round trips.'),
 })
 PROPS['C12']['bounded'] = [{'args': ['tree-ops'], 'classes': None}]
+# the witness-repair branch of phase_two is only reached when the LP answer is off: exercised through the fault hook
+PROPS['C05']['bounded'].append({'args': ['faults'], 'classes': ['cache']})
 
 PROPS['C13']['bounded'].append({'args': ['regions'], 'classes': ['size-hint']})
 PROPS['C13'].update({
